@@ -1,7 +1,7 @@
 """Rules C01, C02, C07, C13, C19 over the extracted scancode automata."""
 import json, os, re
 from .common import VERIF
-from .extract import (ScanTable, scancode_impls, initial_state_of, show_res, Undecided, span_line)
+from .extract import (ScanTable, scancode_impls, initial_state_of, other_constructors, show_res, Undecided, span_line)
 
 REF = os.path.join(VERIF, 'reference')
 
@@ -148,6 +148,15 @@ def build_models(ctx, rep):
     for self_str, path in scancode_impls(ctx):
         models.append(SetModel(ctx, self_str, path))
     rep.floor('ScancodeSet impls', len(models), 2)
+    # every way of obtaining a decoder (Default::default, ...) must give the same initial condition as new()
+    for m in models:
+        for path, st, sp in other_constructors(ctx, m.self_str, m.new_path):
+            ok = st == m.init
+            rep.ob('constructors agree with new()', 1, 1 if ok else 0)
+            if not ok:
+                rep.finding('%s %s constructor %s initial-state' % (rep.prop, m.name, path.split('::')[-1]),
+                            '%s (at %s) constructs a decoder in state %s, new() in state %s: byte streams decode differently from the start' % (
+                                path, sp, m.tab.state_str(st) if st else '<not constant>', m.tab.state_str(m.init)))
     rep.analysed['scancode_impls'] = [m.self_str for m in models]
     for m in models:
         rep.analysed[m.name] = {
